@@ -20,6 +20,19 @@ float = rational arithmetic; wrappers with a longitude span > 180 deg are not ju
 GeoPolygon constructor reads a long edge as antimeridian-crossing and may reverse the ring; the model
 reproduces that); coordinates that differ only in Z are a support stream without model.
 
+Streams added after seeded changes C10-p2 / C10-p3 (classes, not the patches):
+  * `np-object-histories` (`hull.hist <kind> <seed>`): seeded observe / derive / mutate / observe walks over
+    FeatureCollection, Track, MultiGeoPoint, MultiGeoLineString, MultiGeoPolygon and every object derived from them
+    (copy, +, filter_by_dt/property/intersection/contained_by/contains, Track slices, convolve_duplicate_timestamps,
+    filter_by_time, filter_impossible_journeys, index slices); every observation is compared with the exact hull of
+    the members the object holds at that moment; editing a derived object must not change its source; results of
+    multi-shape hull calls are edited by the caller and keyword arguments are passed.  Not judged: editing a
+    collection's own list after its hull was read (the `cached_property` of the unchanged code).
+  * `coarse-lattice-wide-extent`: 90/45/30/15/22.5-degree lattices, longitude windows exactly 180 deg wide with the
+    long edge on the hull (top, bottom, diagonal), poles, the -180 meridian, narrower and wider windows, every entry
+    point; exhaustive 3-/4-subsets of 3x3 lattices 180 deg wide.  Span <= 180 is demanded by the spec (theorem
+    `hull_ccw` covers span = 180), wider is model-only.
+
 Detection (notes/c10_mutations.py, quick tier, seed 0): `<= 0` -> `< 0` in either loop, dropped `set()`,
 sort key `lon` only, `lower[:-1]` -> `lower`, `upper` -> `upper[:-1]`, early return for <= 2 points,
 `while` -> `if`, wrong anchor `lower[0]`, wrong cross product, every wrapper collecting wrong vertices
@@ -332,11 +345,13 @@ def ring_equal(a, b):
 def impl_for(line):
     if line.startswith('hull.derived'):
         return impl_derived
+    if line.startswith('hull.hist'):
+        return impl_hist
     return impl_z if line.startswith('hull.z') else impl
 
 
 def spec_for(line):
-    if line.startswith('hull.derived'):
+    if line.startswith('hull.derived') or line.startswith('hull.hist'):
         return spec_derived
     return spec_z if line.startswith('hull.z') else spec
 
@@ -568,6 +583,342 @@ def spec_derived(_line):
     return 'OK'
 
 
+
+# ---- support stream (no model): observe / derive / mutate / observe histories on every hull-bearing object ------------
+# The statement is about "the coordinates the object holds when the hull is asked for".  A history is a seeded random
+# walk over a pool of objects (FeatureCollection, Track, MultiGeoPoint, MultiGeoLineString, MultiGeoPolygon):
+#   observe(x)          read x's hull and compare it with the exact reference hull of x's *current* member vertices
+#   derive(x) -> y      every public operation that returns a new hull-bearing object: copy(), +, filter_by_dt,
+#                       filter_by_property, filter_by_intersection / contained_by / contains, Track slicing,
+#                       convolve_duplicate_timestamps (with and without duplicates), filter_by_time,
+#                       filter_impossible_journeys, FeatureCollection index slices, multi-shape copy()
+#   mutate(y)           edit y's member list (append / insert / pop / replace); for multi-shapes also in-place edits of a
+#                       member (line-string vertices)
+# Collections cache their hull (`cached_property`), so an object that has been observed is never mutated afterwards
+# through its own list (that staleness exists in the unchanged code and is the documented meaning of the cache); what
+# the walk insists on is that a *derived* object never inherits the source's cached hull and that mutating a derived
+# object never changes the source.  Multi-shape hulls are plain methods and are re-observed after every mutation.
+
+def _hist_coords(obj):
+    """the coordinates a hull-bearing object holds now (the statement's reading, by kind of member)"""
+    from geostructures import GeoPoint, GeoLineString
+    out = []
+    for sh in obj.geoshapes:
+        if hasattr(sh, 'geoshapes'):
+            out += _hist_coords(sh)
+        elif isinstance(sh, GeoPoint):
+            out.append(sh.centroid)
+        elif isinstance(sh, GeoLineString):
+            out += list(sh.vertices)
+        else:
+            out += list(sh.bounding_coords())
+    return out
+
+
+def impl_hist(line):
+    import random as _r
+    from datetime import time as _time
+    from geostructures import (Coordinate, FeatureCollection, GeoBox, GeoLineString, GeoPoint, GeoPolygon, Track,
+                               MultiGeoPoint, MultiGeoLineString, MultiGeoPolygon)
+    from geostructures.time import TimeInterval
+    _op, kind, seed = line.split()
+    rng = _r.Random(int(seed))
+    t0 = datetime(2021, 3, 1, tzinfo=timezone.utc)
+    counter = [0]
+
+    def xy():
+        return rng.randint(-160, 160) / 8, rng.randint(-160, 160) / 8
+
+    def point(dt=None):
+        counter[0] += 1
+        return GeoPoint(Coordinate(*xy()), dt=dt, properties={'i': counter[0]})
+
+    def linestring(dt=None):
+        counter[0] += 1
+        return GeoLineString([Coordinate(*xy()) for _ in range(rng.randint(2, 4))], dt=dt, properties={'i': counter[0]})
+
+    def polygon(dt=None):
+        counter[0] += 1
+        if rng.random() < 0.5:
+            (a, b), (c, d) = xy(), xy()
+            return GeoBox(Coordinate(min(a, c), max(b, d)), Coordinate(max(a, c) + 1, min(b, d) - 1), dt=dt,
+                          properties={'i': counter[0]})
+        x, y = xy()
+        return GeoPolygon([Coordinate(x, y), Coordinate(x + rng.randint(1, 16) / 8, y + rng.randint(-8, 8) / 8),
+                           Coordinate(x + rng.randint(-8, 8) / 8, y + rng.randint(1, 16) / 8), Coordinate(x, y)],
+                          dt=dt, properties={'i': counter[0]})
+
+    def stamp():
+        # few distinct hours so that duplicate time stamps (at most two shapes per stamp: exact averages) occur
+        return t0 + timedelta(hours=rng.randint(0, 30))
+
+    def member(timed, points_only=False):
+        dt = stamp() if timed else (stamp() if rng.random() < 0.3 else None)
+        r = rng.random()
+        if points_only or r < 0.55:
+            return point(dt)
+        if r < 0.8:
+            return linestring(dt)
+        if r < 0.93:
+            return polygon(dt)
+        return MultiGeoPoint([point() for _ in range(rng.randint(1, 3))], dt=dt, properties={'i': 0})
+
+    def fresh(k, n=None):
+        n = n or rng.randint(2, 7)
+        if k == 'F':
+            return FeatureCollection([member(False) for _ in range(n)])
+        if k == 'T':
+            pts_only = rng.random() < 0.6
+            ms, used = [], {}
+            while len(ms) < n:
+                m = member(True, pts_only)
+                if used.get(m.start, 0) >= 2:
+                    continue
+                used[m.start] = used.get(m.start, 0) + 1
+                ms.append(m)
+            return Track(ms)
+        if k == 'MP':
+            return MultiGeoPoint([point() for _ in range(n)])
+        if k == 'ML':
+            return MultiGeoLineString([linestring() for _ in range(n)])
+        return MultiGeoPolygon([polygon() for _ in range(n)])
+
+    def kind_of(o):
+        return {'FeatureCollection': 'F', 'Track': 'T', 'MultiGeoPoint': 'MP', 'MultiGeoLineString': 'ML',
+                'MultiGeoPolygon': 'MG'}[type(o).__name__]
+
+    def hull_of(o):
+        k = kind_of(o)
+        if k in ('F', 'T'):
+            return o.convex_hull
+        if k in ('MP', 'MG') and rng.random() < 0.3:
+            return o.convex_hull(k=rng.choice([0, 3, 8]))      # vertex-defined members: the keyword changes nothing
+        return o.convex_hull()
+
+    log = []
+    pool = [{'o': fresh(kind), 'seen': False}]
+    n_obs = 0
+
+    def observe(e, why):
+        nonlocal n_obs
+        o = e['o']
+        if not o.geoshapes:
+            return None
+        want = _show_ref(reference_ring([(F(c.longitude), F(c.latitude)) for c in _hist_coords(o)]))
+        h = hull_of(o)
+        got = _show(h.outline)
+        if kind_of(o) in ('MP', 'ML', 'MG') and rng.random() < 0.3:
+            h.outline.clear()           # the caller owns the result of a method call: editing it must not leak back
+            log.append('result.outline.clear')
+        e['seen'] = True
+        n_obs += 1
+        if not ring_equal(got, want):
+            return (f'WRONG hull after [{" ; ".join(log)}] at {why}: got {got[:120]} but the object holds '
+                    f'{len(o.geoshapes)} members whose exact hull is {want[:120]}')
+        return None
+
+    def derive(e):
+        o = e['o']
+        k = kind_of(o)
+        if k in ('MP', 'ML', 'MG'):
+            log.append(f'{k}.copy')
+            return o.copy()
+        ops = ['copy', 'add', 'fdt', 'fdt-instant', 'fprop', 'finter', 'fwithin', 'fcontains']
+        ops += ['slice', 'convolve', 'ftime', 'fjourney'] if k == 'T' else ['index']
+        op = rng.choice(ops)
+        log.append(f'{k}.{op}')
+        cut = t0 + timedelta(hours=rng.randint(3, 27))
+        probe = GeoBox(Coordinate(-rng.randint(2, 20), rng.randint(2, 20)), Coordinate(rng.randint(2, 20), -rng.randint(2, 20)))
+        if op == 'copy':
+            return o.copy()
+        if op == 'add':
+            return o + fresh(k, rng.randint(1, 3))
+        if op == 'fdt':
+            return o.filter_by_dt(TimeInterval(cut - timedelta(hours=rng.randint(1, 12)), cut + timedelta(hours=rng.randint(0, 12))))
+        if op == 'fdt-instant':
+            return o.filter_by_dt(rng.choice([s for s in o.geoshapes if s.dt is not None] or [point(cut)]).start)
+        if op == 'fprop':
+            m = rng.choice([2, 3])
+            return o.filter_by_property('i', lambda v: v % m != 0)
+        if op == 'finter':
+            return o.filter_by_intersection(probe)
+        if op == 'fwithin':
+            return o.filter_contained_by(probe)
+        if op == 'fcontains':
+            return o.filter_contains(GeoPoint(Coordinate(*xy())))
+        if op == 'index':
+            return FeatureCollection(o[rng.randint(0, 2):rng.randint(2, 8)])
+        if op == 'slice':
+            r = rng.random()
+            return o[cut:] if r < 0.35 else o[:cut] if r < 0.7 else o[cut - timedelta(hours=8):cut + timedelta(hours=8)]
+        if op == 'convolve':
+            if any(not isinstance(s, GeoPoint) for s in o.geoshapes):
+                log[-1] += '(skipped: non-point members)'
+                return o.copy()
+            return o.convolve_duplicate_timestamps()
+        if op == 'ftime':
+            return o.filter_by_time(_time(rng.randint(0, 11), 0), _time(rng.randint(12, 23), 0))
+        if op == 'fjourney':
+            if any(not isinstance(s, GeoPoint) for s in o.geoshapes):
+                log[-1] += '(skipped: non-point members)'
+                return o.copy()
+            return o.filter_impossible_journeys(rng.choice([50.0, 500.0, 5000.0]))
+        raise ValueError(op)
+
+    def mutate(e):
+        o = e['o']
+        k = kind_of(o)
+        new = {'F': lambda: member(False), 'T': lambda: member(True, True), 'MP': point, 'ML': linestring,
+               'MG': polygon}[k]
+        ops = ['append', 'insert'] + (['replace'] if o.geoshapes else []) + (['pop'] if len(o.geoshapes) > 1 else [])
+        if k == 'ML' and o.geoshapes:
+            ops.append('vertex')
+        op = rng.choice(ops)
+        log.append(f'{k}.geoshapes.{op}')
+        g = o.geoshapes
+        if op == 'append':
+            g.append(new())
+        elif op == 'insert':
+            g.insert(rng.randint(0, len(g)), new())
+        elif op == 'pop':
+            g.pop(rng.randrange(len(g)))
+        elif op == 'replace':
+            g[rng.randrange(len(g))] = new()
+        else:
+            rng.choice(g).vertices.append(Coordinate(*xy()))
+
+    steps = rng.randint(4, 9)
+    for step in range(steps):
+        e = rng.choice(pool)
+        is_multi = kind_of(e['o']) in ('MP', 'ML', 'MG')
+        r = rng.random()
+        if r < 0.3 or step == 0:
+            log.append('observe')
+            bad = observe(e, f'step {step}')
+            if bad:
+                return bad
+        elif r < 0.7:
+            src_ids = [id(s) for s in e['o'].geoshapes]
+            try:
+                d = {'o': derive(e), 'seen': False}
+            except Exception as exc:    # noqa  (a derivation that raises is not a hull question: C17/C18)
+                log[-1] += f'({type(exc).__name__}: no derived object)'
+                continue
+            pool.append(d)
+            # a derived object is edited before anybody looked at it, then observed; the source must be unaffected
+            if d['o'].geoshapes is e['o'].geoshapes:
+                return f'ALIAS after [{" ; ".join(log)}]: the derived object shares the source\'s member list'
+            if rng.random() < 0.75:
+                mutate(d)
+                if [id(s) for s in e['o'].geoshapes] != src_ids:
+                    return f'ALIAS after [{" ; ".join(log)}]: editing the derived object changed the source\'s members'
+            log.append('observe derived')
+            bad = observe(d, f'step {step} (derived)')
+            if bad:
+                return bad
+            if e['seen'] or is_multi:
+                log.append('observe source')
+                bad = observe(e, f'step {step} (source again)')
+                if bad:
+                    return bad
+        else:
+            if e['seen'] and not is_multi:
+                continue            # the collection's own cache: documented, not judged
+            mutate(e)
+            log.append('observe')
+            bad = observe(e, f'step {step} (after edit)')
+            if bad:
+                return bad
+    ops = sorted({x for x in log if '.' in x and 'geoshapes' not in x})
+    return f'OK {n_obs} :: ' + ' '.join(ops)
+
+
+# ---- coarse lattices with very wide extent ---------------------------------------------------------------------------
+
+def lattice_lines(run):
+    """point sets on 90/45/30/15/22.5-degree lattices: spans of exactly 180 deg of longitude (edges joining the two
+    extreme meridians on top, at the bottom, diagonally), poles, the -180 meridian; every set through every entry point"""
+    rng = run.rng
+    lines = []
+
+    def through_all(pts, exhaustive=False):
+        out = ['hull.poly ' + fmt_pts(pts)]
+        P = ' '.join('P ' + fmt_pts([p]) for p in pts)
+        out.append('hull.multi ' + P)
+        if len(pts) >= 2:
+            k = rng.randint(1, len(pts) - 1)
+            out.append(f'hull.multi L {k} ' + fmt_pts(pts[:k]) + f' L {len(pts) - k} ' + fmt_pts(pts[k:])
+                       if k >= 1 and len(pts) - k >= 1 else 'hull.multi L %d %s' % (len(pts), fmt_pts(pts)))
+            out.append(f'hull.multi G {len(pts)} ' + fmt_pts(pts))
+            out.append('hull.coll ' + P)
+            out.append(f'hull.coll L {len(pts)} ' + fmt_pts(pts))
+            out.append('hull.coll M %d %s' % (len(pts), P))
+            out.append('hull.track ' + ' '.join(f'@{rng.randint(0, 3)} P ' + fmt_pts([p]) for p in pts))
+        if not exhaustive:
+            out = [out[0]] + rng.sample(out[1:], min(3, len(out) - 1)) + ['hull.of ' + fmt_pts(pts)]
+        return out
+
+    # exhaustive: every 3- and 4-subset of a 3x3 lattice exactly 180 deg wide (three windows), lat rows incl. a pole
+    for w in (-180, -90, -135):
+        for lats in ((-90, 0, 90), (10, 45, 80)):
+            grid = [(F(w + dx), F(y)) for dx in (0, 90, 180) for y in lats]
+            for k in (3, 4):
+                subsets = list(itertools.combinations(grid, k))
+                if run.quick and k == 4:
+                    subsets = rng.sample(subsets, 15)
+                for sub in subsets:
+                    sub = list(sub)
+                    rng.shuffle(sub)
+                    ls = through_all(sub, exhaustive=True)
+                    lines += ls if not run.quick else [ls[0]] + rng.sample(ls[1:], 2)
+    # random coarse lattices
+    for i in range(run.scale(200, 2500)):
+        step = rng.choice([F(90), F(45), F(45), F(30), F(15), F(45, 2)])
+        nlon, nlat = int(360 / step), int(180 / step)
+        mode = i % 4
+        if mode in (0, 1):      # window exactly 180 wide, both extreme meridians occupied
+            w = -180 + step * rng.randint(0, int(180 / step) - 1)
+            xs = [w, w + 180] + [w + step * rng.randint(0, int(180 / step)) for _ in range(rng.randint(1, 5))]
+        elif mode == 2:         # narrower than 180
+            span = step * rng.randint(1, int(180 / step) - 1)
+            w = -180 + step * rng.randint(0, int((360 - span) / step) - 1)
+            xs = [w, w + span] + [w + step * rng.randint(0, int(span / step)) for _ in range(rng.randint(1, 5))]
+        else:                   # anywhere on the globe (often wider than 180: model only)
+            xs = [-180 + step * rng.randint(0, nlon - 1) for _ in range(rng.randint(3, 7))]
+        ys = [-90 + step * rng.randint(0, nlat) for _ in xs]
+        if mode == 0:           # make the long edge a hull edge: the two extreme-meridian points on top or at the bottom
+            top = rng.random() < 0.5
+            ys[0] = ys[1] = max(ys) if top else min(ys)
+            if rng.random() < 0.5:
+                ys[1] = ys[0] - step * rng.randint(0, 1) if top else ys[0] + step * rng.randint(0, 1)
+            ys = [max(F(-90), min(F(90), y)) for y in ys]
+        pts = [(F(x), F(y)) for x, y in zip(xs, ys)]
+        assert all(-180 <= x < 180 and -90 <= y <= 90 for x, y in pts), pts
+        if rng.random() < 0.3:
+            pts.append(rng.choice(pts))
+        rng.shuffle(pts)
+        lines += through_all(pts)
+    return lines
+
+
+def lattice_tag(ln, a):
+    op, pts = line_points(ln)
+    if not pts:
+        return ['lattice:empty']
+    span = max(p[0] for p in pts) - min(p[0] for p in pts)
+    cls = 'span=180' if span == 180 else 'span<180' if span < 180 else 'span>180 (model only)'
+    tags = [f'lattice:{op}:{cls}']
+    if span == 180:
+        ring = reference_ring(pts)
+        if any(abs(a_[0] - b_[0]) == 180 for a_, b_ in zip(ring, ring[1:])):
+            tags.append('lattice:hull-edge-spans-exactly-180')
+    if any(abs(p[1]) == 90 for p in pts):
+        tags.append('lattice:pole')
+    if any(p[0] == -180 for p in pts):
+        tags.append('lattice:lon=-180')
+    return tags
+
+
 def check(run):
     run.prove(MODULE, THEOREMS)
     rng = run.rng
@@ -681,6 +1032,21 @@ def check(run):
                   known_key=lambda ln, a, sp: 'derived-collection.convex_hull/' + ln.split()[2] + '/stale',
                   tag=lambda ln, a: ['derived:' + ln.split()[1] + ':' + ln.split()[2]])
 
+    # coarse lattices with very wide extent: spans of exactly 180 deg, poles, the -180 meridian, every entry point
+    run.run_cases('coarse-lattice-wide-extent', lattice_lines(run), impl, spec, spec_compare=ring_equal, tag=lattice_tag)
+
+    # observe / derive / mutate / observe histories on every hull-bearing object (support, no model)
+    lines_h = []
+    kinds = ['F', 'T', 'T', 'F', 'MP', 'ML', 'MG']
+    for i in range(run.scale(700, 8000)):
+        lines_h.append(f'hull.hist {kinds[i % len(kinds)]} {rng.randrange(10 ** 9)}')
+    run.run_cases('np-object-histories', lines_h, impl_hist, spec_derived, model=False,
+                  spec_compare=lambda a, sp: a.startswith('OK'),
+                  known_key=lambda ln, a, sp: 'history/' + ln.split()[1] + '/' + a.split(' ', 1)[0].lower(),
+                  nontrivial=lambda ln, a: not a.startswith('OK 0'),
+                  tag=lambda ln, a: (['hist:' + x.split('(')[0] for x in a.split(' :: ', 1)[1].split()] or ['hist:no-derivation'])
+                  if a.startswith('OK') and ' :: ' in a else ['hist:' + a.split(' ', 1)[0]])
+
     return run.finish(
         rule='a case is one protocol line = one coordinate multiset in one order through one entry point. Exhaustive: '
              'every multiset of <= 4 points of the 4x4 grid (thorough: <= 6; quick samples sizes 5, 6) in every '
@@ -692,7 +1058,11 @@ def check(run):
              'FeatureCollection (nested multi-shapes) and Track. Every case is compared with the Lean model and with '
              'an independent exact reference (gift wrapping, cross-checked against brute-force extreme points for '
              '<= 9 distinct points, and against the laws closed/CCW/strict turns/no repeats/vertices are inputs/'
-             'contains all). distinct_nontrivial counts distinct lines; the class histogram is in `histogram`.',
+             'contains all). Added: coarse lattices (multiples of 90/45/30/15/22.5 deg) with longitude windows exactly 180 deg '
+             'wide, poles and the -180 meridian through every entry point; seeded observe/derive/mutate/observe '
+             'histories (support stream) over collections, tracks, multi-shapes and every derived object, each '
+             'observation compared with the exact hull of the members held at that moment. '
+             'distinct_nontrivial counts distinct lines; the class histogram is in `histogram`.',
         assumptions=[
             'coordinates are exact dyadic rationals (multiples of 1/8, |v| <= 170) so that every float product/sum in '
             'coordinate_vector_cross_product and is_counter_clockwise is exact: the float program is the rational program',
